@@ -33,23 +33,29 @@ class Stall(RuntimeError):
 
 
 class CoopLock:
-    """Lock for code running as tasks of one OS thread: contention cannot be
-    waited out (the holder is parked), so it is reported as a harness error."""
+    """Lock for code running as tasks of one OS thread.  A contended acquire
+    parks the task (it becomes schedulable again once the lock is free), just
+    as an OS thread would block; it is not a yield point of its own for the
+    interleaving hash beyond the choice that resumes it."""
 
-    def __init__(self, reentrant=False):
+    def __init__(self, sched, reentrant=False):
+        self.sched = sched
         self.reentrant = reentrant
         self.holder = None
         self.depth = 0
 
+    def free_for(self, glet):
+        return self.holder is None or (self.reentrant and self.holder is glet)
+
     def acquire(self, blocking=True, timeout=-1):   # pylint: disable=unused-argument
         me = greenlet.getcurrent()
-        if self.holder is None or (self.reentrant and self.holder is me):
-            self.holder = me
-            self.depth += 1
-            return True
-        if not blocking:
-            return False
-        raise Stall('lock contention between tasks (holder parked at a yield point)')
+        while not self.free_for(me):
+            if not blocking:
+                return False
+            self.sched.wait_for_lock(self)
+        self.holder = me
+        self.depth += 1
+        return True
 
     def release(self):
         self.depth -= 1
@@ -163,6 +169,27 @@ class Scheduler:
     def kill_all(self):
         for t in list(self.live):
             self.kill(t)
+
+    def runnable(self, task):
+        """False while the task waits for a lock another parked task holds."""
+        if task.state == 'blocked' and task.pending is not None and task.pending[1] == 'lock':
+            return task.pending[0].free_for(task.glet)
+        return True
+
+    def wait_for_lock(self, lock):
+        cur = greenlet.getcurrent()
+        task = getattr(cur, 'task', None)
+        if cur is self._main or task is None:
+            raise Stall('lock contention outside a task (holder parked at a yield point)')
+        if task.kill:
+            raise Killed()
+        task.pending = (lock, 'lock', None)
+        task.state = 'blocked'
+        self._main.switch()
+        task.state = 'running'
+        task.pending = None
+        if task.kill:
+            raise Killed()
 
     # -- the hook of the fake ------------------------------------------------
     def yield_point(self, client, op, path):
